@@ -149,6 +149,15 @@ def merge_routine(ctx, rule='C12-R2'):
         tgt = e.target
         if tag(tgt) in ('sub', 'col'):
             pass
+    # every per-call value of a known key is taken over: the stores together cover "key in ref_dict"
+    cover = T.mk_or([T.mk_and([l for l in guard_literals(e.guard) if T.contains(l, lambda x: tag(x) == 'lv')])
+                     for e in stores if e.kind == 'store'])
+    known = [l for e in stores for l in guard_literals(e.guard) if known_key_literal(l)]
+    ctx.check(bool(known) and cover == known[0], rule, adj, f.node.name, f.loc(),
+              f'values of known keys are only taken over under {T.show(cover, maxlen=200)}: some legal per-call values '
+              '(e.g. None, as in MSA: null) are silently skipped, so the per-call / YAML routes no longer agree with '
+              'editing the global dictionary', facts={'coverage': T.show(cover, maxlen=400)},
+              instance='adjust_nested_dict: every value of a known key is stored')
     warns = [e for e in evs if e.kind == 'call' and call_head(e) == 'warnings.warn']
     good = False
     for e in warns:
